@@ -53,6 +53,8 @@ void apply_knobs(const Case &c) {
   h.unusual_seed = c.exec_seed ^ 0x77;
   h.unusual_seen = 0;
   h.unusual_fired = 0;
+  h.refused_queries = 0;
+  h.tag_checks = 0;
   h.td_check_delayed_now = c.pbool("td_check_now");
 }
 
